@@ -880,6 +880,15 @@ class PolyhedralTermList(TermList):  # noqa: WPS338
         if maximize:
             polarity = -1
         res = linprog(c=polarity * obj_mat[0], A_ub=self_mat, b_ub=self_cons, bounds=(None, None))
+        if res["status"] in {2, 4}:
+            # the solver's presolve may report a feasible unbounded problem as infeasible: solve again without it
+            res = linprog(
+                c=polarity * obj_mat[0],
+                A_ub=self_mat,
+                b_ub=self_cons,
+                bounds=(None, None),
+                options={"presolve": False},
+            )
         # Linprog's status values
         # 0 : Optimization proceeding nominally.
         # 1 : Iteration limit reached.
